@@ -282,7 +282,9 @@ func (r *Run) Violation(sig, what string, replay any) {
 	}
 	r.violSigs[sig]++
 	n := len(r.viols)
-	if r.violSigs[sig] > 3 || n >= 40 {
+	// the first witness of every distinct signature is always printed (up to 400 files);
+	// repeats of a signature up to 3, and only while fewer than 40 witnesses exist
+	if r.violSigs[sig] > 1 && (r.violSigs[sig] > 3 || n >= 40) || n >= 400 {
 		return // counted, not re-printed
 	}
 	dir := filepath.Join(Root(), "replays")
